@@ -527,6 +527,8 @@ class IntermediateCodeGen(AbstractCodeGen):
     def genTypeDeclaration(self, data):
         name, declaration = data
 
+        name = self.transOpers(name)
+
         outDict = OrderedDict()
         outDict['name'] = name
         outDict['class'] = 'type'
@@ -534,7 +536,6 @@ class IntermediateCodeGen(AbstractCodeGen):
         if declaration:
             parentType, attrs = declaration
             if parentType:  # skipping SEQUENCE case
-                name = self.transOpers(name)
                 outDict.update(attrs)
                 self.regSym(name, outDict)
 
